@@ -668,8 +668,9 @@ func randomToken(r *hx.Rand) string {
 		}
 		return s + string(rune('1'+r.Intn(9))) + digits(r.Intn(4))
 	}
-	strChars := []string{"a", "b", " ", "é", "\ufffd", "\ufeff", "#", ",", "'", "\t", "/", "\uffff", "\u2028"}
-	esc := []string{`\"`, `\\`, `\/`, `\b`, `\f`, `\n`, `\r`, `\t`, `\u0041`, `\u00e9`, `\uFFFF`, `\u0000`, `\uD800`, `\udfff`, `\u12aB`}
+	strChars := []string{"a", "b", " ", "é", "\ufffd", "\ufeff", "#", ",", "'", "\t", "/", "\uffff", "\u2028", "\u0122", "\u015c", "\u010a", "\u0431"}
+	esc := []string{`\"`, `\\`, `\/`, `\b`, `\f`, `\n`, `\r`, `\t`, `\u0041`, `\u00e9`, `\uFFFF`, `\u0000`, `\uD800`, `\udfff`, `\u12aB`,
+		"\\u004\u0131", "\\u\u0430041", "\\\u016e", "\\\u0175", "\\u00\U0001f631" + "1", "\\\u0122"}
 	switch r.Intn(16) {
 	case 0, 1:
 		return hx.Pick(r, names)
@@ -714,7 +715,8 @@ func randomToken(r *hx.Rand) string {
 	case 13:
 		return hx.Pick(r, []string{"\n", "\r", "\r\n", "\n\r", "\r\r\n", "\n\n"})
 	case 14:
-		return hx.Pick(r, []string{"\ufeff", "\ufffd", "\u0001", "\U0001F600", "%", "~", "-", ".", "..", "+", "\\", "'", "?", "\u007f", "\u0000", "\v", "é"})
+		return hx.Pick(r, []string{"\ufeff", "\ufffd", "\u0001", "\U0001F600", "%", "~", "-", ".", "..", "+", "\\", "'", "?", "\u007f", "\u0000", "\v", "é",
+			"\u0131", "\u0161", "\u0141", "\u015f", "\u0120", "\u010a", "\u010d", "\u012c", "\u017b", "\u0122", "\u0123", "\u012e", "\u012d", "\u0165", "\uff11", "\U00010031", "\U0001f661", "\u0431"})
 	default:
 		return hx.Pick(r, []string{"0", "00", "01", "1.", "1.e1", "1e", "1e+", "-", "-a", "1a", "1_", "0x1", ".5", "1..2", "1...2", "-0.0e-0", "0e0", `""`, `""""`, `"""""`, `""""""`, `"\u00"`, `"\u`, `"\`, `"`, `"""`, `"""\`})
 	}
@@ -889,14 +891,39 @@ func main() {
 	for _, pre := range []string{"", `"`, "#", `"""`, `"\`, `"""\`} {
 		words(b, "source-boundary", srcEdge, 1, 3, pre, "", all1)
 	}
+	// 12. truncation aliases: for every ASCII character a the runes a+0x100, a+0x400, a+0x10000 and a+0x1F600
+	// (congruent to a modulo 2^8, the third also modulo 2^16) in every position where the scanner tests
+	// an ASCII class — a table lookup or a narrowing conversion must not take them for a
+	aliasContexts := [][2]string{
+		{"", ""}, {"a", ""}, {"", "a"}, {"a", "b"}, {"1", ""}, {"1", "5"}, {"-", ""}, {"-", "1"}, {"1.", ""}, {"1.", "5"}, {"1", ".5"},
+		{"1e", ""}, {"1e", "5"}, {"1", "+5"}, {"1e+", ""}, {"1.5", "3"}, {"..", ""}, {"", ".."}, {".", "."},
+		{`"`, `"`}, {`"\`, `"`}, {`"\u004`, `"`}, {`"\u`, `041"`}, {`"\u0`, `41"`}, {`"\u00`, `1"`}, {`"a`, ""}, {"", `a"`}, {`"`, `""`}, {`""`, `"`}, {"", `""x"""`},
+		{`"""`, `"""`}, {`"""\`, `"""`}, {`"""a""`, ""}, {`"""a`, `""`}, {`"""\"`, `""x"""`}, {`"""\""`, `"x"""`}, {"\"\"\"\n  a\n", "  b\n\"\"\""}, {"\"\"\"a", "b\"\"\""},
+		{"#", "\nx"}, {"#c", "x"}, {"a", "#c"}, {"\r", "x"}, {"", "\nx"}, {"{", "}"}, {"\ufeff", "a"},
+	}
+	for a := 0; a < 128; a++ {
+		for _, off := range []int{0x100, 0x400, 0x10000, 0x1F600} {
+			r := string(rune(a + off))
+			for _, c := range aliasContexts {
+				b.add([]byte(c[0]+r+c[1]), mixed(b.n), "truncation-alias")
+			}
+		}
+	}
+	// Unicode look-alikes of the ASCII classes (digits, letters, spaces, line separators, quotes, backslash)
+	for _, r := range []string{"\uff10", "\uff19", "\u0660", "\u0669", "\u00b2", "\uff21", "\uff5a", "\uff3f", "\u00aa", "\u0131", "\u0430", "\u0441",
+		"\u00a0", "\u3000", "\u2000", "\u1680", "\u0085", "\u2028", "\u2029", "\uff02", "\u201c", "\uff3c", "\uff0c", "\uff0e", "\uff0d", "\uff0b", "\uff03", "\U0001f631", "\U00010030", "\U0001d7ce"} {
+		for _, c := range aliasContexts {
+			b.add([]byte(c[0]+r+c[1]), mixed(b.n), "unicode-lookalike")
+		}
+	}
 	b.flush()
 	run.SetExhaustive(true)
 	run.Note("exhaustive parts: dense^≤%d, \"·string^≤%d, \"\\u·hex^4·\", \"\"\"·block^≤%d, \"\"\"·indent^≤%d·\"\"\", number^≤%d, lineterm^≤%d, name-boundary^≤%d, ascii^≤2, a·ascii·b, backslash·ascii in both string kinds, \\u·hexedge^4, {,\",#,\"\"\",\"\\,\"\"\"\\}·srcedge^≤3 (%d texts)",
 		run.Scale(3, 4), run.Scale(5, 6), run.Scale(5, 6), run.Scale(7, 9), run.Scale(5, 6), run.Scale(5, 7), run.Scale(4, 5), b.n)
 
-	// 12. layouts: lexeme sequences under two random layouts each (layout.go)
+	// 13. layouts: lexeme sequences under two random layouts each (layout.go)
 	h.runLayouts(b, run.Scale(6000, 80000))
-	// 13. random longer texts
+	// 14. random longer texts
 	for i, n := 0, run.Scale(20000, 300000); i < n; i++ {
 		r := run.Rand.Fork()
 		src := randomText(r, run.Scale(14, 30))
@@ -909,7 +936,7 @@ func main() {
 			run.Sample(mkCase(src, mode, "random"))
 		}
 	}
-	// 14. invalid UTF-8
+	// 15. invalid UTF-8
 	for i, n := 0, run.Scale(5000, 60000); i < n; i++ {
 		r := run.Rand.Fork()
 		src := malformed(r)
